@@ -29,6 +29,15 @@ pub fn families() -> Vec<Family> {
         .runs(2_000, 80_000)
         .tokio(),
         Family::new(
+            "c17_ws_server_burst",
+            "C17",
+            "WebSocketServer outbound guard under queueing: one handler invocation pushes several notifies (direct or broadcast) of sizes around the limit back to back while sized responses are pipelined, so oversized messages sit behind others in the outbound queue",
+            c17_ws_server_burst,
+        )
+        .runs(2_000, 80_000)
+        .steps(2_000_000)
+        .tokio(),
+        Family::new(
             "c17_ws_proxy",
             "C17",
             "proxy_connection_with_limits over a real AsyncClient<->AsyncServer hop: forwarded responses at sizes around the limit",
@@ -239,6 +248,178 @@ fn c17_ws_server_paths(case: &Case) {
         case.check(reported.iter().filter(|e| e.0 == "/pushed").count() == expect_dropped, "drop-not-reported", || {
             format!("{expect_dropped} oversized notifies dropped but on_error saw {reported:?}")
         });
+        check_inbox_clean(&case, "WebSocketServer", &inbox);
+        case.nontrivial();
+        let _ = tokio::time::timeout(Duration::from_secs(2), sink.close()).await;
+        let _ = tokio::time::timeout(Duration::from_secs(2), collector).await;
+        srv.abort();
+        let _ = srv.await;
+    });
+}
+
+/// Several outbound messages are queued before the writer gets to run: the guard must hold
+/// for every one of them, not only for the message that woke the writer.
+fn c17_ws_server_burst(case: &Case) {
+    net::reset(roomy_net());
+    let limit = draw_limit().map(|l| l.min(70_000));
+    let n_ops = range(1, 5) as usize;
+    // op = Some(sizes) for a push burst (with broadcast flag), None + size for a sized response
+    #[derive(Clone, Debug)]
+    enum Op {
+        Burst { sizes: Vec<usize>, broadcast: bool },
+        Resp { size: usize, off: bool },
+    }
+    let ops: Vec<Op> = (0..n_ops)
+        .map(|_| {
+            if simkernel::choose(3) != 0 {
+                let k = range(2, 6) as usize;
+                Op::Burst { sizes: (0..k).map(|_| draw_size(limit, 48 + "/pushed".len())).collect(), broadcast: simkernel::choose(2) == 0 }
+            } else {
+                let off = simkernel::choose(2) == 0;
+                Op::Resp { size: draw_size(limit, 48 + if off { "/sized_off".len() } else { "/sized".len() }), off }
+            }
+        })
+        .collect();
+    let out_cap = pick(&[16usize, 64, 256]);
+    case.sample(json!({"assumed_peer_frame_limit": limit, "outbound_capacity": out_cap, "ops": ops.iter().map(|o| format!("{o:?}")).collect::<Vec<_>>()}));
+    let case = case.clone();
+    aio::run(&case.clone(), 3_600, async move {
+        let reg = PeerRegistry::new();
+        let reg2 = reg.clone();
+        let full = Arc::new(AtomicU64::new(0));
+        let full2 = full.clone();
+        let router = Router::new()
+            .with_erased_handler("/sized", Arc::new(Sized { off_reader: false }))
+            .with_erased_handler("/sized_off", Arc::new(Sized { off_reader: true }))
+            .with_json("/echo", |v: Value| Ok(json!({"echo": v})))
+            .with_json_ctx("/pushmany", move |ctx, v: Value| {
+                let base = v["tag"].as_u64().unwrap_or(0);
+                let bc = v["broadcast"].as_bool().unwrap_or(false);
+                let mut queued = Vec::new();
+                for (k, n) in v["lens"].as_array().cloned().unwrap_or_default().iter().enumerate() {
+                    let n = n.as_u64().unwrap_or(0) as usize;
+                    let body = pattern(base + k as u64, n);
+                    let ok = if bc {
+                        reg2.broadcast_notify_raw("/pushed", BodyFormat::RawBinary, &body).values().all(|r| r.is_ok())
+                    } else {
+                        ctx.peer().map(|p| p.send_notify("/pushed", NotifyBody::Raw(body, BodyFormat::RawBinary)).is_ok()).unwrap_or(false)
+                    };
+                    if !ok {
+                        full2.fetch_add(1, Ordering::SeqCst);
+                    }
+                    queued.push(ok);
+                }
+                Ok(json!({"queued": queued}))
+            });
+        let too_large = Arc::new(std::sync::Mutex::new(Vec::<(String, usize, usize)>::new()));
+        let tl = too_large.clone();
+        let limits = WebSocketLimits::default().with_assumed_peer_frame_limit(limit);
+        let listener = WebSocketServer::listen("127.0.0.1:0").await.unwrap();
+        let addr = listener.local_addr().unwrap();
+        let server = WebSocketServer::new(router).with_limits(limits).with_outbound_capacity(out_cap).with_offreader_limit(0).with_peer_registry(reg.clone()).on_error(move |e: &ConnectionError| {
+            if let ConnectionError::OutboundTooLarge { method, size, limit } = e {
+                tl.lock().unwrap().push((method.clone(), *size, *limit));
+            }
+        });
+        let srv = tokio::spawn(async move {
+            let _ = server.serve_listener(listener, "/repe").await;
+        });
+        let Ok(ws) = raw_connect(addr, "/repe").await else {
+            case.harness_error("handshake failed");
+            return;
+        };
+        let (mut sink, stream) = ws.split();
+        let inbox = Arc::new(Inbox::default());
+        let collector = spawn_collector(stream, inbox.clone());
+        // everything pipelined: nothing waits for anything until the barrier
+        let mut id = 0u64;
+        for op in &ops {
+            id += 1;
+            let f = match op {
+                Op::Burst { sizes, broadcast } => {
+                    let lens: Vec<usize> = sizes.iter().map(|s| s - 48 - "/pushed".len()).collect();
+                    Frame::new(id, b"/pushmany", &serde_json::to_vec(&json!({"tag": id * 100, "lens": lens, "broadcast": broadcast})).unwrap())
+                }
+                Op::Resp { size, off } => {
+                    let q: &[u8] = if *off { b"/sized_off" } else { b"/sized" };
+                    Frame::new(id, q, &serde_json::to_vec(&json!({"n": size - 48 - q.len()})).unwrap())
+                }
+            }
+            .with_formats(1, 2);
+            let _ = send_frame(&mut sink, &f).await;
+        }
+        let n_req = id;
+        let ib = inbox.clone();
+        if !wait_until(120_000, || (1..=n_req).all(|i| !ib.responses_for(i).is_empty()) || ib.ended()).await || inbox.ended() {
+            case.fail("connection-lost", format!("not every pipelined request was answered (connection ended={})", inbox.ended()));
+            srv.abort();
+            return;
+        }
+        // barrier: everything queued before it has been framed (or dropped) by the writer
+        id += 1;
+        let _ = send_frame(&mut sink, &Frame::new(id, b"/echo", b"{\"fin\":1}").with_formats(1, 2)).await;
+        let want = id;
+        if !wait_until(120_000, || !inbox.responses_for(want).is_empty() || inbox.ended()).await {
+            case.fail("connection-lost", format!("follow-up call got no reply (connection ended={})", inbox.ended()));
+        }
+        sleep_ms(5).await;
+        if let Some(l) = limit {
+            let m = inbox.max_binary.load(Ordering::SeqCst);
+            case.check(m <= l, "message-over-limit", || format!("a binary message of {m} bytes was sent, assumed peer frame limit {l}"));
+        }
+        let frames = inbox.frames();
+        let mut expect_dropped = 0usize;
+        let queue_was_full = full.load(Ordering::SeqCst) > 0;
+        for (k, op) in ops.iter().enumerate() {
+            let rid = k as u64 + 1;
+            match op {
+                Op::Burst { sizes, .. } => {
+                    let resp = inbox.responses_for(rid);
+                    let queued: Vec<bool> = resp.first().and_then(|r| serde_json::from_slice::<Value>(&r.body).ok()).and_then(|v| v["queued"].as_array().cloned()).unwrap_or_default().iter().map(|b| b.as_bool().unwrap_or(false)).collect();
+                    for (j, size) in sizes.iter().enumerate() {
+                        let tag = rid * 100 + j as u64;
+                        let n = size - 48 - "/pushed".len();
+                        let accepted = queued.get(j).copied().unwrap_or(false);
+                        let got = frames.iter().filter(|f| f.notify != 0 && f.query == b"/pushed" && f.body.len() == n && is_pattern(tag, &f.body)).count();
+                        let over = limit.is_some_and(|l| *size > l);
+                        if !accepted {
+                            // the bounded outbound queue was full: the sink refused it, legitimately
+                            continue;
+                        }
+                        if over {
+                            expect_dropped += 1;
+                            case.probe("oversized_notify_dropped");
+                            case.check(got == 0, "oversized-notify-sent", || format!("burst {k} message {j}: notify of {size} B over limit {limit:?} reached the wire"));
+                        } else {
+                            case.check(got == 1, "notify-altered", || format!("burst {k} message {j}: notify of {size} B within limit {limit:?} was accepted by the sink but {got} matching messages arrived"));
+                        }
+                    }
+                }
+                Op::Resp { size, off } => {
+                    let rs = inbox.responses_for(rid);
+                    let q: &[u8] = if *off { b"/sized_off" } else { b"/sized" };
+                    let n = size - 48 - q.len();
+                    if rs.len() != 1 {
+                        case.fail("response-count", format!("pipelined request {rid} got {} responses", rs.len()));
+                        continue;
+                    }
+                    if limit.is_some_and(|l| *size > l) {
+                        case.probe("oversized_response_replaced");
+                        case.check(rs[0].ec == ErrorCode::InternalError as u32, "oversized-response-not-replaced", || format!("queued response of {size} B over limit {limit:?} arrived as ec={} with {} body bytes", rs[0].ec, rs[0].body.len()));
+                    } else {
+                        case.check(rs[0].ec == 0 && rs[0].body.len() == n && is_pattern(rid, &rs[0].body), "response-altered", || format!("queued response of {size} B within limit {limit:?} arrived as ec={} body {} B", rs[0].ec, rs[0].body.len()));
+                    }
+                }
+            }
+        }
+        let reported = too_large.lock().unwrap().iter().filter(|e| e.0 == "/pushed").count();
+        case.check(reported == expect_dropped, "drop-not-reported", || format!("{expect_dropped} oversized notifies dropped but on_error saw {reported} OutboundTooLarge reports for /pushed"));
+        if queue_was_full {
+            case.probe("outbound_queue_full_during_burst");
+        }
+        if ops.iter().any(|o| matches!(o, Op::Burst { .. })) {
+            case.probe("burst_queued_behind_other_messages");
+        }
         check_inbox_clean(&case, "WebSocketServer", &inbox);
         case.nontrivial();
         let _ = tokio::time::timeout(Duration::from_secs(2), sink.close()).await;
